@@ -409,6 +409,17 @@ func runC19(c *core.Ctx) {
 			c19All(c, []byte(s))
 		}
 	}
+	// 0b. every HTML5 named character reference: all string laws on strings that contain it
+	for i, name := range wl.EntityNames {
+		if !c.Mine(i) {
+			continue
+		}
+		// (whether the expansion is the right one is a conformance question and belongs to C02; here only the laws)
+		x := []byte("a&" + name + "b")
+		c19All(c, x)
+		c19All(c, []byte("[x](/u?&"+name+" \"&"+name+"\")"))
+		c.Count("named_references_checked", 1)
+	}
 	// 1. exhaustive short strings
 	L := c.N(3, 5)
 	n := wl.ShortCount(len(c19Alpha), L)
